@@ -29,6 +29,7 @@
 import BVM.Proofs.SerFrame
 import BVM.Proofs.RtSimp
 import BVM.Proofs.SizeSer
+import BVM.Proofs.RecordBounds
 namespace BVM
 
 theorem stores_are_logged_truthfully (env : SerEnv) (sc : Scalar) (oib : Option Nat) (v : Int) (s : SerSt) :
@@ -92,6 +93,50 @@ theorem record_within_reserved_space (env : SerEnv) (pfx : String) (args : Args)
   rw [size_exact pfx args S hS s.at_ hnw] at hfit
   exact (struct_in_bounds env pfx args S hS s L hsmall hlen h0 hfit).1
 
+/-- every root structure — packet header (magic, UUID, stream id), packet context (with the fields written back at
+    closing skipped), event record header, contexts, payload — whose true end is inside the buffer is serialised
+    without any store outside the buffer -/
+theorem any_root_fits_implies_in_bounds (env : SerEnv) (spec : String → Option WSrc) (pfx : String) (args : Args) (S : Struct)
+    (hS : RootOKS spec S) (s : SerSt) (L : Nat) (hsmall : 8 * L + S.align ≤ 2 ^ 32) (hlen : s.buf.length = L)
+    (h0 : s.oob = false) (hfit : structEndS spec pfx args S s.at_ ≤ 8 * L) :
+    (serRoot env pfx (buildRoot spec S) args s).oob = false ∧
+    (serRoot env pfx (buildRoot spec S) args s).at_ = structEndS spec pfx args S s.at_ ∧
+    (serRoot env pfx (buildRoot spec S) args s).buf.length = L :=
+  root_in_bounds env spec pfx args S hS s L hsmall hlen h0 hfit
+
+/-- `_er_size_<dst>_<ert>` (header + common context + specific context + payload, `uint32_t` arithmetic) is the
+    distance `_serialize_er_<dst>_<ert>` advances, for every record type, arguments and position -/
+theorem er_size_is_er_serialise_advance (env : SerEnv) (A : Nat) (d : DST) (e : ERT) (hok : RecordOK A d e) (args : Args)
+    (s : SerSt) : erSizeAt d e args s.at_ = subU32 (serRecord env d e args s).at_ s.at_ :=
+  erSizeAt_eq_ser env A d e hok args s
+
+/-- **a tracing call writes its record inside the packet**: in the tracing function, once `_reserve_er_space` has
+    returned 1 and the post-reservation check has found `er_size ≤ packet_size - at` (the check added by the repair of
+    finding F8), the record is serialised with no store outside the buffer and `at` stays within the packet — provided
+    the packet size is the buffer size, `at` is inside the packet (`PosOK`: the position invariant, assumed here, not
+    yet proved along histories) and the record's true end does not wrap `uint32_t` -/
+theorem tracing_call_writes_inside_the_packet (cfg : Cfg) (A : Nat) (d : DST) (e : ERT) (hok : RecordOK A d e) (args : Args)
+    (erAt : Nat) (r : Bool × St) (hp : PosOK A r.2) (hr : r.1 = true)
+    (hnw : recordEndN d e args r.2.c.at_ + A + 8 ≤ 2 ^ 32)
+    (hfit : ¬ sizeAfterReserve d e args erAt (erSizeAt d e args erAt) r.2 > r.2.c.room r.2.c.at_) :
+    traceAfterReserve cfg d e args erAt (erSizeAt d e args erAt) r = traceWrite cfg d e args r.2 ∧
+    (runSer (serRecord (serEnvOf cfg d e.id r.2.c.curLastEventTs r.2.c) d e args) r.2).halted = false ∧
+    (runSer (serRecord (serEnvOf cfg d e.id r.2.c.curLastEventTs r.2.c) d e args) r.2).c.at_ ≤ r.2.c.packetSize := by
+  have hsz : sizeAfterReserve d e args erAt (erSizeAt d e args erAt) r.2 = erSizeAt d e args r.2.c.at_ := by
+    unfold sizeAfterReserve
+    by_cases h : r.2.c.at_ = erAt
+    · simp [h]
+    · simp [h]
+  rw [hsz] at hfit
+  have hw := traceWrite_ser_in_bounds cfg A d e hok args r.2 hp hnw (by omega)
+  refine ⟨?_, hw.1, ?_⟩
+  · unfold traceAfterReserve
+    simp only [hp.notHalted, hr, hsz, Bool.false_eq_true, if_false, Bool.not_true]
+    rw [if_neg hfit]
+  · have := hw.2.1
+    rw [hw.2.2.2] at this
+    exact this
+
 /-! Non-vacuity -/
 def c02S : Struct := ⟨1, [⟨"n", .el (.sc (.int false 8 8))⟩, ⟨"a", .darr "n" (.sc (.int false 5 8))⟩,
                            ⟨"t", .el (.sc (.int true 4 1))⟩, ⟨"s", .el (.sc .str)⟩]⟩
@@ -124,4 +169,7 @@ example : (({ buf := [0, 0], at_ := 8, saved := [], stores := [], oob := false, 
 #print axioms fits_implies_in_bounds
 #print axioms size_pass_exact
 #print axioms record_within_reserved_space
+#print axioms any_root_fits_implies_in_bounds
+#print axioms er_size_is_er_serialise_advance
+#print axioms tracing_call_writes_inside_the_packet
 end BVM
